@@ -213,6 +213,41 @@ func c01Run(c *core.Ctx, idx int) {
 			ok = step(op)
 		}
 		c.Count("histories.exhaustive")
+	} else if idx%16 == 15 && cfg.Cap == 0 {
+		// a long history: grow well past any small-array regime, then drain (re-sizing of the backing array in either
+		// direction must never show in the content)
+		target := r.Range(33, 130)
+		for m.Len() < target && ok {
+			n := r.Range(1, 9)
+			vals := make([]any, n)
+			for i := range vals {
+				vals[i] = next()
+			}
+			ok = step(LOp{K: "Push", Vals: vals})
+		}
+		if ok && r.Chance(1, 4) {
+			ok = step(LOp{K: "Reset"})
+			if ok {
+				ok = step(LOp{K: "Push", Vals: []any{next(), next()}})
+			}
+		}
+		for m.Len() > 0 && ok {
+			switch r.Intn(8) {
+			case 0:
+				ok = step(LOp{K: "Remove", I: r.Intn(m.Len())})
+			case 1:
+				ok = step(LOp{K: "Insert", Vals: []any{next()}, I: r.Intn(m.Len() + 1)})
+				if ok {
+					ok = step(LOp{K: "Pop"})
+				}
+			default:
+				ok = step(LOp{K: "Pop"})
+			}
+		}
+		if ok {
+			ok = step(LOp{K: "Push", Vals: []any{next()}})
+		}
+		c.Count("histories.long")
 	} else {
 		for i := 0; i < 40 && ok; i++ {
 			ok = step(randListOp(r, m.Len(), m.Fifo, next))
@@ -248,7 +283,7 @@ func init() {
 		},
 		Run: c01Run,
 		Rule: "cases = all histories of length <= 3 (quick) / <= 4 (thorough) over a 14-symbol mutator alphabet on start lengths 0..3, " +
-			"plus seeded random 40-op histories (batched pushes with 10% nil, Insert/Remove with indices in [-L-1,L+1], FIFO switched on mid-history); " +
+			"plus long histories (growth to 33..130 elements, optional Reset, full drain) and seeded random 40-op histories (batched pushes with 10% nil, Insert/Remove with indices in [-L-1,L+1], FIFO switched on mid-history); " +
 			"each on a random kind x LIFO/FIFO x capacity {none,1,2,3,5} x negative/forward index options. After EVERY op the real stack's " +
 			"Len/IsEmpty/Index(all positions and 5 out-of-range probes)/Front/Back/Cap/Avail/IsFull and the op's return values are compared with a sequential list model. " +
 			"non-trivial = history uses >= 3 different mutator kinds and reaches Len >= 2; distinct = hash of (configuration, literal op list).",
@@ -262,6 +297,7 @@ func init() {
 			for _, k := range []string{"Push", "Pop", "Insert", "Remove", "Replace", "Swap", "Reverse", "Reset"} {
 				f["op."+k] = 100
 			}
+			f["histories.long"] = 500
 			for _, k := range Kinds {
 				for _, o := range []string{"lifo", "fifo"} {
 					for _, cp := range []string{"cap", "nocap"} {
